@@ -8,6 +8,7 @@ from .front import Unsupported
 from .state import (SV, State, const_sv, truthy, shape, field_type, KIND, CLS, cls_in, new_list, new_dict,
                     new_exception, new_instance, alloc, elem_type, int_of, str_of, val_of)
 from . import spec as SP
+from .state import merge_states
 
 
 class Outcome(object):
@@ -110,8 +111,8 @@ class ExecCore(object):
             return st, None
         if z3.is_false(cond):
             return None, st
-        a = st.copy().assume(cond)
-        b = st.assume(Not(cond))
+        a = st.copy().assume(cond, 'f')
+        b = st.assume(Not(cond), 'f')
         if label:
             a.trace.append(label + '=T')
             b.trace.append(label + '=F')
@@ -137,6 +138,8 @@ class ExecCore(object):
                         nxt.append(o.st)
                     else:
                         outs.append(o)
+            if len(nxt) > 1:
+                nxt = [m for m, _ in merge_states([(c, None) for c in nxt])]
             cur = nxt
             if not cur:
                 break
@@ -398,10 +401,17 @@ class ExecCore(object):
             ks = fresh('keys', SeqVal)
             i, j = z3.Ints('ki kj')
             kq = z3.Const('kq', Val)
-            ax = [z3.Length(ks) == st.DSZ[a],
-                  z3.ForAll([i], Implies(And(0 <= i, i < z3.Length(ks)), st.DK[a][ks[i]]), patterns=[ks[i]]),
-                  z3.ForAll([i, j], Implies(And(0 <= i, i < j, j < z3.Length(ks)), ks[i] != ks[j])),
-                  z3.ForAll([kq], Implies(st.DK[a][kq], z3.Contains(ks, z3.Unit(kq))))]
+            if SP.BOUND[0] is not None:
+                K = SP.BOUND[0]
+                ax = [z3.Length(ks) == st.DSZ[a], z3.Length(ks) <= K]
+                ax += [Implies(z3.Length(ks) > x, st.DK[a][ks[x]]) for x in range(K)]
+                ax += [Implies(z3.Length(ks) > y, ks[x] != ks[y]) for x in range(K) for y in range(x + 1, K)]
+                ax.append(z3.ForAll([kq], Implies(st.DK[a][kq], Or(*[And(z3.Length(ks) > x, ks[x] == kq) for x in range(K)]))))
+            else:
+                ax = [z3.Length(ks) == st.DSZ[a],
+                      z3.ForAll([i], Implies(And(0 <= i, i < z3.Length(ks)), st.DK[a][ks[i]]), patterns=[ks[i]]),
+                      z3.ForAll([i, j], Implies(And(0 <= i, i < j, j < z3.Length(ks)), ks[i] != ks[j])),
+                      z3.ForAll([kq], Implies(st.DK[a][kq], z3.Contains(ks, z3.Unit(kq))))]
             return ('seq', ks, ty.k if isinstance(ty, Ty.TDict) else ty.t, ax)
         if isinstance(ty, Ty.TStr):
             raise Unsupported('iteration over the characters of a symbolic string')
@@ -414,6 +424,8 @@ class ExecCore(object):
         view = self.iter_view(st, itv)
         if view[0] == 'const':
             return self.unrolled_for(s, st, view[1])
+        if SP.BOUND[0] is not None:
+            return self.bounded_for(s, st, view, k)
         if lspec is None:
             raise Unsupported('loop #%d over a symbolic sequence has no invariant in the contract' % k)
         _, seq, elty, axioms = view
@@ -440,7 +452,7 @@ class ExecCore(object):
         for lab, text in invs:
             h.assume(self.spec_bool(h, text))
         # 3. one arbitrary iteration
-        b = h.copy().assume(ivar < z3.Length(seq))
+        b = h.copy().assume(ivar < z3.Length(seq), 'f')
         b.trace.append('loop#%d:body' % k)
         if self.feasible(b):
             item = SV(seq[ivar], elty)
@@ -466,13 +478,76 @@ class ExecCore(object):
                     else:
                         outs.append(o)
         # 4. exit by exhaustion
-        x = h.copy().assume(ivar == z3.Length(seq))
+        x = h.copy().assume(ivar == z3.Length(seq), 'f')
         x.trace.append('loop#%d:done' % k)
         if self.feasible(x):
             if s.orelse:
                 outs.extend(self.exec_block(s.orelse, x))
             else:
                 outs.append(Outcome('normal', x))
+        return outs
+
+    def bounded_for(self, s, st, view, k):
+        """refutation mode: the loop is unrolled K times (sequence length <= K is a recorded side constraint), so
+        counter-models are real executions and no invariant is involved"""
+        K = SP.BOUND[0]
+        _, seq, elty, axioms = view
+        for ax in axioms:
+            st.assume(ax)
+        st.assume(z3.Length(seq) <= K)
+        outs = []
+        cur = [st]
+        done = []
+        for i in range(K + 1):
+            nxt = []
+            for c in cur:
+                more, stop = self.fork(c, z3.Length(seq) > i, 'loop#%d[%d]' % (k, i))
+                if stop is not None:
+                    done.append(stop)
+                if more is None or i == K:
+                    continue
+                item = SV(seq[i], elty)
+                more.assume(shape(more, item.term, elty))
+                ns, rs = self.assign(s.target, item, more)
+                outs.extend(rs)
+                for c1 in ns:
+                    for o in self.exec_block(s.body, c1):
+                        if o.kind in ('normal', 'continue'):
+                            nxt.append(o.st)
+                        elif o.kind == 'break':
+                            outs.append(Outcome('normal', o.st))
+                        else:
+                            outs.append(o)
+            cur = nxt
+        for c in done:
+            if s.orelse:
+                outs.extend(self.exec_block(s.orelse, c))
+            else:
+                outs.append(Outcome('normal', c))
+        return outs
+
+    def bounded_while(self, s, st, k):
+        K = SP.BOUND[0]
+        outs = []
+        cur = [st]
+        for i in range(K + 1):
+            nxt = []
+            for c in cur:
+                normals, raises = self.ev(s.test, c)
+                outs.extend(raises)
+                for n, v in normals:
+                    t, f = self.fork(n, truthy(n, v), 'while#%d[%d]' % (k, i))
+                    if f is not None:
+                        outs.extend(self.exec_block(s.orelse, f) if s.orelse else [Outcome('normal', f)])
+                    if t is not None and i < K:
+                        for o in self.exec_block(s.body, t):
+                            if o.kind in ('normal', 'continue'):
+                                nxt.append(o.st)
+                            elif o.kind == 'break':
+                                outs.append(Outcome('normal', o.st))
+                            else:
+                                outs.append(o)
+            cur = nxt
         return outs
 
     def unrolled_for(self, s, st, items):
@@ -630,6 +705,8 @@ class ExecCore(object):
 
     def st_While(self, s, st):
         k, lspec = self.loop_spec(s)
+        if SP.BOUND[0] is not None:
+            return self.bounded_while(s, st, k)
         if lspec is None:
             raise Unsupported('while loop #%d has no invariant in the contract' % k)
         invs = self.contract.labelled(lspec.get('inv', []))
